@@ -1,6 +1,7 @@
 //! Verification harness for avra-rs: executes the real library on inputs chosen by /verif/check
 //! and prints canonical observations.  Never linked into the repository itself.
 mod build;
+mod buildfs;
 mod enc;
 mod exprs;
 mod sexp;
@@ -26,6 +27,8 @@ fn main() {
         "hist" => hist::main(&args[2..]),
         "build" => build::main(),
         "build-worker" => build::worker(),
+        "buildfs" => build::parent("buildfs-worker"),
+        "buildfs-worker" => buildfs::worker(),
         "expr" => exprs::main(),
         other => {
             eprintln!("unknown command {}", other);
